@@ -53,11 +53,16 @@ Applies(ep, c) ==
     [] c = "length-field-lies"     -> ep \in {"psdkg", "blsverify", "psverify", "pssign", "psprover"}
     [] OTHER -> TRUE
 
+\* a verifier must be initialised by its owner before it is handed signatures or proofs (calling Verify first is a local
+\* programming error, not an input from the network); the public parameters are what Init itself parses
+StateOK(ep, st, k) ==
+  IF ep \in {"blsverify", "psverify"} THEN (k = "public-params") = (st = "fresh") ELSE TRUE
+
 EntryPoints == DOMAIN States
 AllStates == UNION {States[e] : e \in EntryPoints}
 AllKinds  == UNION {Kinds[e] : e \in EntryPoints}
 Cells == {x \in EntryPoints \X AllStates \X AllKinds \X Classes :
-             x[2] \in States[x[1]] /\ x[3] \in Kinds[x[1]] /\ Applies(x[1], x[4])}
+             x[2] \in States[x[1]] /\ x[3] \in Kinds[x[1]] /\ Applies(x[1], x[4]) /\ StateOK(x[1], x[2], x[3])}
 
 \* the obligation of every cell
 Obligation(r) == r.panic = "" /\ ~r.hung /\ r.probe
